@@ -19,7 +19,7 @@ ASSUMPTIONS = ['"terminates" is decided on logical steps: the number of items th
                'sna2skool is run on the control file without -r (the file already declares RST arguments)',
                'when END is 65536 there is no terminating directive to write (nothing follows)']
 MIN_NONTRIVIAL = {'quick': 600, 'thorough': 15000}
-N_CASES = {'quick': 2400, 'thorough': 100000}
+N_CASES = {'quick': 8000, 'thorough': 100000}
 
 def plan(tier, seed):
     n = 16
